@@ -262,6 +262,8 @@ def t_randperm(I, n, device=None, **kw):
 
     t = Tensor(STensor([d], fn, "int", "randperm"))
     t.meta["perm"] = (f, inv, nn)
+    I.ctx.ghost["last_perm"] = (f, inv, nn)
+    I.ctx.ghost.setdefault("perms", []).append((f, inv, nn))
     return t
 
 
